@@ -5,17 +5,37 @@ import (
 	"strings"
 )
 
+// prevStmt returns the statement just before n in its statement list (nil if n is first).
+func prevStmt(p *Prog, n ast.Node) ast.Stmt {
+	var list []ast.Stmt
+	switch par := p.parents[n].(type) {
+	case *ast.BlockStmt:
+		list = par.List
+	case *ast.CaseClause:
+		list = par.Body
+	case *ast.CommClause:
+		list = par.Body
+	}
+	for i, s := range list {
+		if ast.Node(s) == n && i > 0 {
+			return list[i-1]
+		}
+	}
+	return nil
+}
+
 var verdicts = []string{"ValidationAccept", "ValidationReject", "ValidationIgnore", "validationThrottled"}
 
 func init() {
 	register(&Property{ID: "C04", Run: runC04,
-		Explain: "Verdict logic decided by value-set propagation over the four-value verdict enum (T5) plus dominance: (R04.1) validateMsg returns only Accept/Reject/Ignore (out-of-range -> Ignore); (R04.2) in validate the value set of the inline result is {Accept} at onValid, within {Accept,Ignore} at the asynchronous hand-off, Reject leads to RejectMessage(RejectValidationFailed)+error, Ignore without async validators to RejectValidationIgnored+error; (R04.3) validateTopic combines verdicts monotonically in the order Accept<Ignore<Throttled<Reject (every assignment `result=C` happens where the current set is below C and in the arm of the received verdict C), which makes the outcome independent of completion order; (R04.4) doValidateTopic calls onValid only with result in {Accept} even when the inline stage said Ignore, and each non-accept arm reports the matching reason; (R04.5) peerScore.RejectMessage never reaches markInvalidMessageDelivery for throttled/ignored/queue-full/blacklist reasons and always penalises the forwarder (and every recorded duplicate sender) for RejectValidationFailed; (R04.7) the validator list attached to a queued message is a private copy (no append through an alias of the shared default list); (R04.6) local publishing validates synchronously (all validators inline) and surfaces the pipeline's error. NOT decided: validator timeouts, purity of user validators.",
+		Explain: "Verdict logic decided by value-set propagation over the four-value verdict enum (T5) plus dominance: (R04.1) validateMsg returns only Accept/Reject/Ignore (out-of-range -> Ignore); (R04.2) in validate the value set of the inline result is {Accept} at onValid, within {Accept,Ignore} at the asynchronous hand-off, Reject leads to RejectMessage(RejectValidationFailed)+error, Ignore without async validators to RejectValidationIgnored+error; (R04.3) validateTopic combines verdicts monotonically in the order Accept<Ignore<Throttled<Reject (every assignment `result=C` happens where the current set is below C and in the arm of the received verdict C), which makes the outcome independent of completion order, and the collecting loop is left early only where the combined verdict is already {Reject} (no later verdict can be lost); (R04.4) doValidateTopic calls onValid only with result in {Accept} even when the inline stage said Ignore, and each non-accept arm reports the matching reason; (R04.5) peerScore.RejectMessage never reaches markInvalidMessageDelivery for throttled/ignored/queue-full/blacklist reasons and always penalises the forwarder (and every recorded duplicate sender) for RejectValidationFailed; (R04.7) the validator list attached to a queued message is a private copy (no append through an alias of the shared default list); (R04.6) local publishing validates synchronously (all validators inline) and surfaces the pipeline's error. NOT decided: validator timeouts, purity of user validators.",
 		Assume:  []string{"user validators return a ValidationResult (any int value)", "go/cfg fallthrough edges are modelled by x/tools"},
 		Mutants: []Mutant{
 			{Name: "validateMsg-unknown-passthrough", File: "validation.go", Old: "\t\tval.logger.Warn(\"Unexpected result from validator; ignoring message\", \"result\", r)\n\t\treturn ValidationIgnore", New: "\t\tval.logger.Warn(\"Unexpected result from validator; ignoring message\", \"result\", r)\n\t\treturn r", Expect: "R04.1"},
 			{Name: "inline-ignore-then-accept", File: "validation.go", Old: "\t\tswitch val.validateMsg(v.p.ctx, src, msg) {\n\t\tcase ValidationAccept:\n", New: "\t\tswitch val.validateMsg(v.p.ctx, src, msg) {\n\t\tcase ValidationAccept:\n\t\t\tresult = ValidationAccept\n", Expect: "R04.2"},
 			{Name: "inline-ignore-delivered", File: "validation.go", Old: "\tif result == ValidationIgnore {\n\t\tv.tracer.RejectMessage(msg, RejectValidationIgnored)", New: "\tif result == ValidationIgnore && !synchronous {\n\t\tv.tracer.RejectMessage(msg, RejectValidationIgnored)", Expect: "R04.2"},
 			{Name: "async-upgrade", File: "validation.go", Old: "\tif result == ValidationAccept && r != ValidationAccept {\n\t\tresult = r\n\t}", New: "\tif result != ValidationAccept && r != ValidationAccept {\n\t\tresult = r\n\t}", Expect: "R04.4"},
+			{Name: "topic-throttled-stops-collection", File: "validation.go", Old: "\t\tcase validationThrottled:\n\t\t\tresult = validationThrottled\n", New: "\t\tcase validationThrottled:\n\t\t\tresult = validationThrottled\n\t\t\tbreak loop\n", Expect: "R04.3"},
 			{Name: "topic-ignore-overrides-throttled", File: "validation.go", Old: "\t\t\tif result != validationThrottled {\n\t\t\t\tresult = ValidationIgnore\n\t\t\t}", New: "\t\t\tresult = ValidationIgnore", Expect: "R04.3"},
 			{Name: "topic-reject-not-sticky", File: "validation.go", Old: "\t\t\tresult = ValidationReject\n\t\t\tbreak loop\n\t\tcase ValidationIgnore:\n\t\t\t// throttled", New: "\t\t\tresult = ValidationReject\n\t\t\tif rcount > 8 {\n\t\t\t\tbreak loop\n\t\t\t}\n\t\tcase ValidationIgnore:\n\t\t\t// throttled", Expect: "R04.3"},
 			{Name: "reject-reason-swapped", File: "validation.go", Old: "\t\tv.p.logger.Debug(\"message validation punted; ignoring message from peer\", \"peer\", src)\n\t\tv.tracer.RejectMessage(msg, RejectValidationIgnored)", New: "\t\tv.p.logger.Debug(\"message validation punted; ignoring message from peer\", \"peer\", src)\n\t\tv.tracer.RejectMessage(msg, RejectValidationFailed)", Expect: "R04.4"},
@@ -119,7 +139,59 @@ func runC04(c *RuleCtx) {
 		if n < 4 {
 			c.Undecided("R04.3", f.Name, "verdict assignments", f.Decl, "expected the initialisation and three assignments of the combined verdict")
 		}
-		// every received verdict is consumed: the receive loop counts exactly the number of results sent (rcount)
+		// every verdict is collected unless the outcome is already the strongest one: the collecting loop (the loop
+		// that receives from the result channel) is left early only where the combined verdict is {Reject}
+		var collect ast.Stmt
+		inspectNoLit(f.Body, func(x ast.Node) bool {
+			u, ok := x.(*ast.UnaryExpr)
+			if !ok || u.Op.String() != "<-" {
+				return true
+			}
+			if t := f.Info().TypeOf(u); t == nil || !strings.HasSuffix(t.String(), "ValidationResult") {
+				return true
+			}
+			if ls := p.EnclosingLoops(u); len(ls) > 0 {
+				collect = ls[0]
+			}
+			return true
+		})
+		if collect == nil {
+			c.Undecided("R04.3", f.Name, "verdict collection loop", f.Decl, "no loop receiving validator verdicts")
+		} else {
+			var resObj ast.Expr
+			inspectNoLit(f.Body, func(x ast.Node) bool {
+				if as, ok := x.(*ast.AssignStmt); ok && as.Tok.String() == ":=" && len(as.Lhs) == 1 && len(as.Rhs) == 1 {
+					if v := p.R(f).Val(as.Rhs[0]); v.IsConst("ValidationAccept") {
+						resObj = as.Lhs[0]
+					}
+				}
+				return true
+			})
+			exits := LoopEarlyExits(collect)
+			nEx := 0
+			for _, ex := range exits {
+				nEx++
+				okEx := false
+				detail := "combined verdict unknown at the exit"
+				if resObj != nil {
+					cur, def := ef.At(ex, resObj)
+					if !def {
+						// a break/continue is not a CFG node: take the state after the statement in front of it
+						if prev := prevStmt(p, ex); prev != nil {
+							cur, def = ef.After(prev, resObj)
+						}
+					}
+					if def {
+						okEx = cur.SubsetOf("ValidationReject")
+						detail = "combined verdict " + cur.String() + " at the exit"
+					}
+				}
+				c.Check(okEx, "R04.3", f.Name, "collection stops early only on Reject", ex, detail, "the collecting loop is left before every validator's verdict was received although the outcome can still get stronger ("+detail+"): a later Reject is lost and nobody is penalised")
+			}
+			if nEx == 0 {
+				c.Check(true, "R04.3", f.Name, "collection stops early only on Reject", collect, "the loop has no early exit", "")
+			}
+		}
 	}
 	// ---- R04.2 validate
 	if f := c.MustFn("R04.2", fnValidate); f != nil {
